@@ -130,11 +130,19 @@ ShapeClass(ln, bad) ==
 
 (* ------------------------- C18: primitives ---------------------------- *)
 \* positions of the classes, classes being numbered in order of first appearance
-ClassPos(ln) ==
-    FoldLeft(LAMBDA acc, v : IF ln.cls[v] = Len(acc) THEN Append(acc, ln.pos[v]) ELSE acc,
-             <<>>, [v \in 1..Len(ln.cls) |-> v])
+\* One representative vertex per class through TLC's sorted sets (n log n; a fold appending to a sequence
+\* is quadratic and takes a minute for the 100 000 vertices of a fine unwelded sphere).  TLC enumerates a
+\* normalised set in sorted order, so the first pair of every run of <<class, vertex>> pairs is the class'
+\* first vertex and the representatives come out in class order; ClassesSound does not rely on that: it
+\* checks that representative k is of class k-1 and that EVERY vertex agrees with its class' position.
+ClassReps(ln) ==
+    LET s == SetToSeq({<<ln.cls[v], v>> : v \in DOMAIN ln.cls})
+        firsts == {i \in DOMAIN s : i = 1 \/ s[i - 1][1] # s[i][1]}
+    IN SetToSeq({s[i] : i \in firsts})
+ClassPos(ln) == LET r == ClassReps(ln) IN [k \in DOMAIN r |-> ln.pos[r[k][2]]]
 ClassesSound(ln, cpos) ==
     /\ Len(ln.cls) = Len(ln.pos)
+    /\ LET r == ClassReps(ln) IN \A k \in DOMAIN r : r[k][1] = k - 1
     /\ \A v \in DOMAIN ln.cls :
           /\ ln.cls[v] >= 0 /\ ln.cls[v] < Len(cpos)
           /\ \A j \in 1..3 : AbsI(ln.pos[v][j] - cpos[ln.cls[v] + 1][j]) <= 1
